@@ -4,6 +4,7 @@ import (
 	"fmt"
 	"go/token"
 	"go/types"
+	"os"
 	"sort"
 	"strings"
 
@@ -70,42 +71,46 @@ func fanResolve(c *Ctx, cfg fanoutCfg) *fanRoles {
 	}
 	var lock, wg, closed, subs string
 	var chans []string
-	for i := 0; i < st.NumFields(); i++ {
-		f := st.Field(i)
-		nk := namedKey(f.Type())
+	// fields of the component and of the sub-structs it groups its state into
+	// (the subscriber entry type is a unit of its own)
+	isEntry := func(t types.Type) (string, bool) {
+		var elem types.Type
+		switch u := t.Underlying().(type) {
+		case *types.Slice:
+			elem = u.Elem()
+		case *types.Map:
+			elem = u.Elem()
+		default:
+			return "", false
+		}
+		es := structOf(elem)
+		ek := namedKey(elem)
+		if es == nil || !strings.HasPrefix(ek, ro.pkg+".") {
+			return "", false
+		}
+		for j := 0; j < es.NumFields(); j++ {
+			if _, ok := es.Field(j).Type().Underlying().(*types.Chan); ok {
+				return ek, true
+			}
+		}
+		return "", false
+	}
+	for _, f := range evFieldsDeep(ro.pkg, p.Named(cfg.Rel, cfg.Type), nil) {
+		id := f.ID.Type + "." + f.ID.Field
+		nk := namedKey(f.Type)
 		switch {
 		case nk == "sync.Mutex" || nk == "sync.RWMutex":
-			one(&lock, f.Name(), "mutex")
+			one(&lock, id, "mutex")
 		case nk == "sync.WaitGroup":
-			one(&wg, f.Name(), "WaitGroup")
+			one(&wg, id, "WaitGroup")
 		case nk == "sync/atomic.Bool":
-			one(&closed, f.Name(), "atomic.Bool")
+			one(&closed, id, "atomic.Bool")
 		default:
-			switch u := f.Type().Underlying().(type) {
-			case *types.Chan:
-				chans = append(chans, f.Name())
-			case *types.Slice, *types.Map:
-				var elem types.Type
-				if s, ok := u.(*types.Slice); ok {
-					elem = s.Elem()
-				} else {
-					elem = u.(*types.Map).Elem()
-				}
-				es := structOf(elem)
-				ek := namedKey(elem)
-				if es == nil || !strings.HasPrefix(ek, ro.pkg+".") {
-					continue
-				}
-				hasChan := false
-				for j := 0; j < es.NumFields(); j++ {
-					if _, ok := es.Field(j).Type().Underlying().(*types.Chan); ok {
-						hasChan = true
-					}
-				}
-				if hasChan {
-					one(&subs, f.Name(), "subscriber-entries")
-					ro.entryT = ek
-				}
+			if _, isCh := f.Type.Underlying().(*types.Chan); isCh {
+				chans = append(chans, id)
+			} else if ek, ok := isEntry(f.Type); ok {
+				one(&subs, id, "subscriber-entries")
+				ro.entryT = ek
 			}
 		}
 	}
@@ -114,10 +119,14 @@ func fanResolve(c *Ctx, cfg fanoutCfg) *fanRoles {
 			undecided("%s has no %s field: role not resolvable", cfg.Type, what)
 		}
 	}
-	ro.lockID = ro.compT + "." + lock
-	ro.wgID = ro.compT + "." + wg
-	ro.closed = FieldID{ro.compT, closed}
-	ro.subs = FieldID{ro.compT, subs}
+	split := func(id string) FieldID {
+		i := strings.LastIndex(id, ".")
+		return FieldID{id[:i], id[i+1:]}
+	}
+	ro.lockID = lock
+	ro.wgID = wg
+	ro.closed = split(closed)
+	ro.subs = split(subs)
 	ro.fns = p.FuncsOfPkg(cfg.Rel)
 	ro.subFn = p.Func(cfg.Rel, cfg.Type+".Subscribe")
 	ro.closeFn = p.Func(cfg.Rel, cfg.Type+".Close")
@@ -129,7 +138,7 @@ func fanResolve(c *Ctx, cfg fanoutCfg) *fanRoles {
 		}
 	}
 	for _, name := range chans {
-		id := "field:" + ro.compT + "." + name
+		id := "field:" + name
 		if closedCh[id] || len(chans) == 1 {
 			one(&ro.closeCh, id, "close channel")
 		}
@@ -254,7 +263,8 @@ type fanSubState struct {
 
 type fanSubFacts struct {
 	fwd         []*evFrame
-	entryStores map[string]evVal // entry field -> value stored at registration
+	fwdSnap     map[*evFrame]*EvSnapshot // what the spawning path knew at the go statement
+	entryStores map[string]evVal         // entry field -> value stored at registration
 	idSrc       evVal
 	idStore     *ssa.Store
 	idField     string
@@ -267,7 +277,7 @@ type fanSubFacts struct {
 func fanSubscribe(c *Ctx, ro *fanRoles) *fanSubFacts {
 	p := c.P
 	e := c.Locks()
-	ff := &fanSubFacts{entryStores: map[string]evVal{}}
+	ff := &fanSubFacts{entryStores: map[string]evVal{}, fwdSnap: map[*evFrame]*EvSnapshot{}}
 	x := NewEvExplorer[fanSubState](ro.t)
 	seen := map[*evFrame]bool{}
 	x.Instr = func(cx *EvCtx[fanSubState], in ssa.Instruction, s fanSubState) (fanSubState, bool) {
@@ -290,6 +300,7 @@ func fanSubscribe(c *Ctx, ro *fanRoles) *fanSubFacts {
 			if !seen[gf] {
 				seen[gf] = true
 				ff.fwd = append(ff.fwd, gf)
+				ff.fwdSnap[gf] = cx.Snapshot()
 			}
 			if !s.notClosed {
 				ff.unchecked = "a subscriber is registered and its forwarder started at " + p.Pos(v.Pos()) + " without the closed flag having been read false under " + shortID(ro.lockID) + " (held since): a Subscribe racing with or following Close adds a forwarder that Close does not wait for, which can deliver and close the subscriber channel after Close returned"
@@ -301,14 +312,14 @@ func fanSubscribe(c *Ctx, ro *fanRoles) *fanSubFacts {
 			}
 			s.added = false
 		case ssa.CallInstruction:
-			if id, kind, ok := e.lockOp(v); ok && id == ro.lockID {
+			if id, kind, ok := evLockOp(cx, e, v); ok && id == ro.lockID {
 				s.held = kind == opLock || kind == opRLock
 				if !s.held {
 					s.notClosed = false
 				}
 				return s, true
 			}
-			if callIs(v, "sync", "WaitGroup", "Add") && wgIdent(v.Common().Args[0]) == ro.wgID {
+			if callIs(v, "sync", "WaitGroup", "Add") && evWgArg(cx, v) == ro.wgID {
 				s.added = true
 			}
 		}
@@ -377,6 +388,15 @@ type fanFwdFacts struct {
 	visited         []*ssa.Function
 	exitWithoutLock string
 	unknown         string
+	waits           []fanWait // the blocking operations of the forwarder
+}
+
+// fanWait is a blocking operation executed by a forwarder, with the channels
+// of its receive cases resolved along the path that reached it.
+type fanWait struct {
+	in      ssa.Instruction
+	desc    string
+	missing string // shutdown cases it lacks ("" = none)
 }
 
 func fanForwarders(c *Ctx, ro *fanRoles, sf *fanSubFacts) *fanFwdFacts {
@@ -437,15 +457,54 @@ func fanForwarders(c *Ctx, ro *fanRoles, sf *fanSubFacts) *fanFwdFacts {
 			ff.forwardBad = "the forwarder sends at " + p.Pos(instrPos(at)) + " a value that is not the one it received from its buffer"
 		}
 	}
+	waitSeen := map[ssa.Instruction]int{}
+	addWait := func(in ssa.Instruction, desc, missing string) {
+		if i, ok := waitSeen[in]; ok {
+			if missing != "" {
+				ff.waits[i].missing = missing
+			}
+			return
+		}
+		waitSeen[in] = len(ff.waits)
+		ff.waits = append(ff.waits, fanWait{in, desc, missing})
+	}
 	x.Instr = func(cx *EvCtx[fanFwdState], in ssa.Instruction, s fanFwdState) (fanFwdState, bool) {
 		switch v := in.(type) {
 		case *ssa.Send:
 			checkForward(cx, v.Chan, v.X, in)
+			addWait(in, "send on "+shortCh(chanIdent(cx.Resolve(v.Chan).V)), "all (unconditional send)")
+		case *ssa.UnOp:
+			if v.Op == token.ARROW {
+				addWait(in, "receive on "+shortCh(chanIdent(cx.Resolve(v.X).V)), "all (unconditional receive)")
+			}
 		case *ssa.Select:
 			for _, st := range v.States {
 				if st.Dir == types.SendOnly {
 					checkForward(cx, st.Chan, st.Send, in)
 				}
+			}
+			if v.Blocking {
+				hasClose, hasDone := false, false
+				var cs []string
+				for _, st := range v.States {
+					id := chanIdent(cx.Resolve(st.Chan).V)
+					cs = append(cs, shortCh(id))
+					if st.Dir == types.RecvOnly && id == ro.closeCh {
+						hasClose = true
+					}
+					if st.Dir == types.RecvOnly && strings.HasPrefix(id, "done:") {
+						hasDone = true
+					}
+				}
+				sort.Strings(cs)
+				missing := ""
+				if !hasClose {
+					missing += " " + shortCh(ro.closeCh)
+				}
+				if !hasDone {
+					missing += " done:"
+				}
+				addWait(in, "select{"+strings.Join(cs, ",")+"}", missing)
 			}
 		case *ssa.Store:
 			if fa, ok := v.Addr.(*ssa.FieldAddr); ok && fieldIDOfAddr(fa) == ro.subs && s.held {
@@ -457,7 +516,7 @@ func fanForwarders(c *Ctx, ro *fanRoles, sf *fanSubFacts) *fanFwdFacts {
 			}
 		case *ssa.Go:
 		case ssa.CallInstruction:
-			if id, kind, ok := e.lockOp(v); ok && id == ro.lockID {
+			if id, kind, ok := evLockOp(cx, e, v); ok && id == ro.lockID {
 				if kind == opLock || kind == opRLock {
 					s.held = true
 					if !s.lockTaken {
@@ -477,7 +536,7 @@ func fanForwarders(c *Ctx, ro *fanRoles, sf *fanSubFacts) *fanFwdFacts {
 					s.dereg = true
 				}
 			}
-			if callIs(v, "sync", "WaitGroup", "Done") && wgIdent(v.Common().Args[0]) == ro.wgID {
+			if callIs(v, "sync", "WaitGroup", "Done") && evWgArg(cx, v) == ro.wgID {
 				s.done = true
 			}
 		}
@@ -489,7 +548,7 @@ func fanForwarders(c *Ctx, ro *fanRoles, sf *fanSubFacts) *fanFwdFacts {
 	}
 	var exits []ex
 	for _, f := range sf.fwd {
-		for _, e := range x.Explore(f, fanFwdState{}) {
+		for _, e := range x.ExploreFrom(f, fanFwdState{}, sf.fwdSnap[f]) {
 			exits = append(exits, ex{e.P.abs, e.Ret})
 		}
 	}
@@ -562,6 +621,9 @@ func checkFanout(c *Ctx, cfg fanoutCfg) {
 	var counter FieldID
 	if !sf.idSrc.IsZero() {
 		src := sf.idSrc.V
+		if os.Getenv("KC_DEBUG") != "" {
+			fmt.Fprintf(os.Stderr, "idSrc: %T %v in %v\n", src, src, sf.idSrc.F)
+		}
 		if bo, ok := src.(*ssa.BinOp); ok && (bo.Op == token.ADD || bo.Op == token.SUB) {
 			// counter ± constant
 			if _, isK := bo.Y.(*ssa.Const); isK {
@@ -573,7 +635,7 @@ func checkFanout(c *Ctx, cfg fanoutCfg) {
 		if cv, ok := src.(*ssa.Convert); ok {
 			src = ro.t.Resolve(sf.idSrc.F, cv.X).V
 		}
-		if id, _, ok := fieldOfValue(src); ok && id.Type == ro.compT {
+		if id, _, ok := fieldOfValue(src); ok && strings.HasPrefix(id.Type, ro.pkg+".") && id.Type != ro.entryT {
 			counter = id
 			guards = append(guards, GuardSpec{Field: id, Lock: ro.lockID})
 		}
@@ -590,7 +652,7 @@ func checkFanout(c *Ctx, cfg fanoutCfg) {
 		return ok && hs&evSeenUnheld == 0
 	}
 	evGuarded(p, e, r, pre+".M1-guard", ro.fns, held, guards)
-	fanUniqueID(c, ro, sf, counter)
+	fanUniqueID(c, ro, sf, counter, heldAt)
 
 	// ---- forwarders
 	if len(sf.fwd) == 0 {
@@ -631,13 +693,14 @@ func checkFanout(c *Ctx, cfg fanoutCfg) {
 	check(sf.untracked == "", sf.unknown, comp+" forwarder tracked (Add)", "wg.Add under the lock before the forwarder starts", sf.untracked)
 	check(sf.unchecked == "", sf.unknown, comp+" Subscribe closed-check", "subscribers are registered only after the closed flag was read false under the lock", sf.unchecked)
 	check(fw.allDone, fw.unknown, comp+" forwarder tracked (Done)", "wg.Done on every exit of the forwarder", "a forwarder can exit without wg.Done: Close waits forever")
-	var bodies []*ssa.Function
-	for _, fn := range fw.visited {
-		if ro.inPkg(fn) {
-			bodies = append(bodies, fn)
+	for _, w := range fw.waits {
+		construct := FuncName(p, w.in.Parent()) + " " + w.desc
+		if w.missing == "" {
+			r.OK(pre+".M4-forwarders", construct, p.Pos(instrPos(w.in)), "wait has a shutdown case")
+		} else {
+			r.Violation(pre+".M4-forwarders", construct, p.Pos(instrPos(w.in)), "a goroutine that Close waits for can block here without the shutdown case(s)"+w.missing+": Close (or a departing subscriber's deregistration) may never complete")
 		}
 	}
-	CheckShutdownCases(p, e, r, pre+".M4-forwarders", bodies, []string{ro.closeCh, "done:"}, true)
 	why := ""
 	switch {
 	case (!fw.takesLock || !fw.dereg) && fw.unknown != "":
@@ -708,7 +771,7 @@ func fanClose(c *Ctx, ro *fanRoles, wg *WaitGraph, nSend, nEscape int) {
 		if _, isGo := in.(*ssa.Go); isGo {
 			return s, true
 		}
-		if id, kind, ok := e.lockOp(ci); ok && id == ro.lockID {
+		if id, kind, ok := evLockOp(cx, e, ci); ok && id == ro.lockID {
 			if kind == opLock || kind == opRLock {
 				s.held = true
 				if s.marked {
@@ -726,7 +789,10 @@ func fanClose(c *Ctx, ro *fanRoles, wg *WaitGraph, nSend, nEscape int) {
 		case "CompareAndSwap", "Store", "Swap":
 			s.marked = true
 		}
-		if callIs(ci, "sync", "WaitGroup", "Wait") && wgIdent(ci.Common().Args[0]) == ro.wgID {
+		if callIs(ci, "sync", "Once", "Do") && s.won == 0 {
+			s.won = 1 // what runs inside once.Do runs at most once
+		}
+		if callIs(ci, "sync", "WaitGroup", "Wait") && evWgArg(cx, ci) == ro.wgID {
 			if s.barrier {
 				s.waitOK = true
 			} else {
@@ -957,7 +1023,7 @@ func fanDelivery(c *Ctx, ro *fanRoles, releaseFields []string, takesLock bool, f
 			}
 		case *ssa.Go:
 		case ssa.CallInstruction:
-			if id, kind, ok := e.lockOp(v); ok && id == ro.lockID {
+			if id, kind, ok := evLockOp(cx, e, v); ok && id == ro.lockID {
 				s.held = kind == opLock || kind == opRLock
 			}
 		}
@@ -1180,7 +1246,7 @@ func c10Batch(c *Ctx, ro *fanRoles) {
 				now := cx.ResolveIn(v.F, add.Call.Args[0])
 				d := cx.ResolveIn(v.F, add.Call.Args[1])
 				id, _, isF := fieldOfValue(d.V)
-				if evCalleeName(now.V) == "Now" && isF && id.Type == ro.compT && namedKey(d.V.Type()) == "time.Duration" {
+				if evCalleeName(now.V) == "Now" && isF && strings.HasPrefix(id.Type, ro.pkg+".") && namedKey(d.V.Type()) == "time.Duration" {
 					okTTL = true
 				}
 			}
@@ -1233,8 +1299,8 @@ func c10QueueRules(c *Ctx) {
 
 // fanUniqueID: the id stored in a subscriber entry is the value of a counter
 // field of the component that is only ever incremented (by one) under the lock.
-func fanUniqueID(c *Ctx, ro *fanRoles, sf *fanSubFacts, counter FieldID) {
-	r, p, e := c.R, c.P, c.Locks()
+func fanUniqueID(c *Ctx, ro *fanRoles, sf *fanSubFacts, counter FieldID, heldAt func(ssa.Instruction) bool) {
+	r, p := c.R, c.P
 	comp := ro.cfg.Rel + "." + ro.cfg.Type
 	construct := comp + " subscriber id"
 	rule := ro.cfg.Prop + ".M6-unique-id"
@@ -1257,7 +1323,7 @@ func fanUniqueID(c *Ctx, ro *fanRoles, sf *fanSubFacts, counter FieldID) {
 				if !ok || fieldIDOfAddr(fa) != counter || isFreshBase(fa.X) {
 					return
 				}
-				if refDelta(st, counter) == 1 && e.At(st)[ro.lockID] == ModeW {
+				if refDelta(st, counter) == 1 && heldAt(st) {
 					inc = true
 				} else {
 					why = "the id counter " + counter.String() + " is assigned at " + p.Pos(st.Pos()) + " other than by +1 under the lock: ids can repeat"
